@@ -733,6 +733,7 @@ func oracleRules(mr *muxRun, res *RunResult) *Violation {
 	}
 	model := newRuleModel(sc)
 	g := mr.registrars[0]
+	overlapSeen := false
 	for k, rr := range g.res {
 		if !rr.Done {
 			return violationf(prop, "operation-never-returned", "regsvc", "registration %d did not return", k)
@@ -748,6 +749,7 @@ func oracleRules(mr *muxRun, res *RunResult) *Violation {
 			// verdict (see overlaps); if accepted, the services involved are no
 			// longer probed
 			cnt[cStarOverlap]++
+			overlapSeen = true
 			want, why = rr.Err == nil, "kind * overlap refused"
 			if want {
 				model.taint(rr.Op.Service, unsure)
@@ -805,6 +807,14 @@ func oracleRules(mr *muxRun, res *RunResult) *Violation {
 					}
 				}
 			}
+		}
+	}
+	// the final snapshot routes exactly what registering the accepted services
+	// on an empty mux routes (not judged where acceptance itself is
+	// order-dependent: kind "*" overlaps)
+	if !overlapSeen {
+		if v := oracleReference(prop, mr, historyString(g.ops)+"; rules: "+rulesString(sc.Rules), cnt); v != nil {
+			return v
 		}
 	}
 	return nil
